@@ -134,6 +134,18 @@ MAX_HASHED_NODES = 50000000
 MAX_HASHED_DEPTH = 200
 
 
+def hash_leaf_cost(obj):
+    """Rough cost of hashing something that is not a tuple or frozenset, in units
+    of one tuple node.  CPython caches the hash of str and bytes objects, but it
+    recomputes an int's hash from all of its digits each time, and
+    UnicodeForPython3 hashes in Python code."""
+    if isinstance(obj, int):
+        return 1 + obj.bit_length() // 64
+    if isinstance(obj, UnicodeForPython3):
+        return 32 + len(obj.value) // 8
+    return 1
+
+
 def compat_u2s(u):
     if PYTHON_VERSION_TRIPLE < (3, 0):
         # See also ``unaccent.py`` which can be found using Google. I
@@ -210,9 +222,11 @@ class _VersionIndependentUnmarshaller:
 
         return self.r_object()
 
-    def check_hash_cost(self, obj):
+    def check_hash_cost(self, obj, colliding=None):
         """Return ``obj``, a would-be set member or dict key, unless hashing it
         would visit too many nodes or recurse too deeply; then raise ValueError.
+        ``colliding`` maps the hash values of the container's earlier members to
+        their sizes.
 
         The size and depth of each container are computed once, so the check is
         linear in the number of distinct objects.  The memo is keyed by id() and
@@ -230,7 +244,7 @@ class _VersionIndependentUnmarshaller:
                 for child in item:
                     measured = sizes.get(id(child))
                     if measured is None:
-                        size += 1
+                        size += hash_leaf_cost(child)
                     else:
                         size += measured[0]
                         depth = max(depth, measured[1] + 1)
@@ -243,7 +257,15 @@ class _VersionIndependentUnmarshaller:
                 stack.append((item, True))
                 stack.extend((child, False) for child in item)
         measured = sizes.get(id(obj))
-        self.hashed_nodes += measured[0] if measured is not None else 1
+        size = measured[0] if measured is not None else hash_leaf_cost(obj)
+        self.hashed_nodes += size
+        if colliding is not None and size > 1 and self.hashed_nodes <= MAX_HASHED_NODES:
+            # Members with one hash value are compared with "==" when the set or
+            # dict is built; comparing two tuples can visit every node of the
+            # smaller one, and nothing requires equal tuples to share objects.
+            earlier = colliding.setdefault(hash(obj), [])
+            self.hashed_nodes += size + sum(min(size, other) for other in earlier)
+            earlier.append(size)
         if self.hashed_nodes > MAX_HASHED_NODES:
             raise ValueError("too many set members and dict keys to hash")
         return obj
@@ -492,8 +514,13 @@ class _VersionIndependentUnmarshaller:
         setsize = unpack("<i", self.fp.read(4))[0]
         ret, i = self.r_ref_reserve(tuple(), save_ref)
         items = []
+        colliding = {}
         while setsize > 0:
-            items.append(self.check_hash_cost(self.r_object(bytes_for_s=bytes_for_s)))
+            items.append(
+                self.check_hash_cost(
+                    self.r_object(bytes_for_s=bytes_for_s), colliding
+                )
+            )
             setsize -= 1
         return self.r_ref_insert(frozenset(items), i)
 
@@ -501,13 +528,19 @@ class _VersionIndependentUnmarshaller:
         setsize = unpack("<i", self.fp.read(4))[0]
         ret, i = self.r_ref_reserve(tuple(), save_ref)
         items = []
+        colliding = {}
         while setsize > 0:
-            items.append(self.check_hash_cost(self.r_object(bytes_for_s=bytes_for_s)))
+            items.append(
+                self.check_hash_cost(
+                    self.r_object(bytes_for_s=bytes_for_s), colliding
+                )
+            )
             setsize -= 1
         return self.r_ref_insert(set(items), i)
 
     def t_dict(self, save_ref, bytes_for_s=False):
         ret = self.r_ref(dict(), save_ref)
+        colliding = {}
         # dictionary
         while True:
             key = self.r_object(bytes_for_s=bytes_for_s)
@@ -516,7 +549,7 @@ class _VersionIndependentUnmarshaller:
             val = self.r_object(bytes_for_s=bytes_for_s)
             if val is C_NULL:
                 break
-            ret[self.check_hash_cost(key)] = val
+            ret[self.check_hash_cost(key, colliding)] = val
             pass
         return ret
 
